@@ -474,6 +474,11 @@ def check(model, rep):
     r0510(model, rep, ck)
     r0511(model, rep, ck)
     r0512(model, rep, ck)
+    from .common_ops import shared_field_objects
+    rep.rule('R05.13', 'no mutable object (array, pose, list) is bound to two fields of the arm in one method without a copy (the fields would change together)')
+    n13 = shared_field_objects(rep, 'R05.13', ck.arm, allowed={('restoreOriginalEE', frozenset(('_original_end_effector_home', '_end_effector_home')))},
+                               what='the arm\'s state')     # restoreOriginalEE: decided by R05.11 (neither pose is ever mutated in place)
+    rep.floor('R05.13', 'field stores of Arm examined', n13, 40)
     from . import frames
     rep.rule('R05.9', 'kinematics methods of Arm: every relative transform inv(A) @ B / globalToLocal(A, B) is taken between poses expressed in the same frame (world vs base)')
     kin = [fi for name, fi in sorted(ck.arm.methods.items()) if not ('ynamics' in name or name in ('massMatrix', 'coriolisGravity'))]
